@@ -192,6 +192,9 @@ def run(tier, seed):
                         v.violation(f"created checkpoints differ from the plan in {res['id']}", {"engine": "sched", "ret": ret})
     v.assumptions += ["threads <= MaxFrames frames, paths <= MaxOps operations (exhaustive within the configuration)",
                       "summary text compared after replacing ids by their positions"]
+    # the repository's own tests as drivers: every recorded execution against the monitor half of System.tla
+    from .. import suite
+    suite.check(v, wd)
     return v.finish(
         rule="cases = (distinct store state, compaction request) pairs from Threads.tla + determinism triples + gate-scheduled concurrent pairs; "
              "non-trivial = stride > 0 in a state with at least one message; distinct by (state path, op descriptor)",
@@ -206,6 +209,9 @@ def replay(path, seed):
     with open(path) as f:
         rep = json.load(f)
     case = rep["case"]
+    if case.get("engine") == "suite":
+        from .. import suite
+        return suite.replay(PROP, path, case)
     wd = workdir(PROP + "-replay")
     if case.get("engine") == "trans":
         res = run_harness("trans", [case["case"]], wd, "replay")[0]
